@@ -31,7 +31,7 @@ TECH = {
     "C12": "whole-function folding of the two file writers on sample solutions (rows/records per copy, identical copies, lost and gained variants, two solutions) and of genotype() for the output dispatch; replicated-mutable-cell rule; REF/ALT derivation per kind branch",
     "C14": "interprocedural mutation-effect / alias analysis over the call graph (who may write catalogue and evidence); late-bound closure capture via symtable; hash-order taint; write-only debug store; multi-gene and call-history independence by whole-function folding of genotype() with module helpers and cache decorators modelled",
     "C15": "Coverage typestate dataflow (quality filter before every model read); quality predicate and `filtered` store folded on grids (incl. reference-only low-quality sites); threshold formula on 1260 grid points; both stage closures captured by folding the stages whole (one and two structures, a handed-over novel variant)",
-    "C16": "loader/consumer agreement on indel bookkeeping; Optional-op dominance via reaching definitions and guard facts; folded GT arity guard; _load_vcf folded whole on a variant-file stub (21 record kinds incl. padded, other-shape and insertion records, sample index; thorough: generated records vs an independent reading); constructor route (Sample.__init__ folded whole) and indel-table consumer scenarios; genotype() folded whole for the fixed two-copy structure",
+    "C16": "loader/consumer agreement on indel bookkeeping; _load_vcf folded whole on a variant-file stub (21 record kinds incl. padded, other-shape and insertion records, sample index; thorough: generated records vs an independent reading); constructor route (Sample.__init__ folded whole) and indel-table consumer scenarios; genotype() folded whole for the fixed two-copy structure",
     "C17": "positional agreement of pickled / unpickled tuple by role; codec pairs; completeness of dumped state; purity of what runs between loader and dump writer (folded on sample tables); writer -> reader -> coverage construction folded whole; original run vs replay through genotype() folded whole; archive route end to end on a file-system model (main --debug folded whole on an argparse model, Sample.__init__ folded whole, archive members of three genes read back by the lifted detect_genome and _load_dump)",
     "C18": "the Profile class (constructor, typed update, loader, profile writer) lifted with Python calling convention and folded over all parameters x spellings x routes (API, options section, precedence, write/load round trip, history); genotype() and the command-line driver folded whole for the routes; sibling --param parsers",
     "C19": "whole-function folding of genotype() over input kind x structure given/estimated x depth x minimum x output style (error before any stage, closed simple-output line); estimate_cn folded whole over depth tables; empty-neutral-region and diploid-depth guards by CFG dominance and by folding Sample.__init__ whole",
